@@ -99,6 +99,8 @@ def items(tier):
         out.append((sp, {"rule": "TSLACK", "max_time": F.seq_bound(sp) + 8}))
     for sp in F.float_order_specs() + F.same_name_workplace_specs()[:4] + [F.shared_id_spec(), F.waiting_component_spec()] + F.auto_placement_specs()[:3]:
         out.append((sp, {"rule": "TSLACK", "max_time": F.seq_bound(sp) + 8}))
+    for sp in F.nested_order_specs() + [F.loaned_worker_spec()] + F.two_pair_specs() + F.double_link_specs()[::5]:
+        out.append((sp, {"rule": "TSLACK", "max_time": F.seq_bound(sp) + 8}))
     for sp, o in F.scale_items():
         if not o.get("res_absence") and o["absence"] in ([], F.SCALE_ABSENCE[1]) and (tier == "thorough" or sp["label"] in ("scale:long-unsorted-calendars", "scale:8components", "scale:layers3x4", "scale:queue-of-nine")):
             out.append((sp, o))
